@@ -6,6 +6,10 @@ HERE = os.path.dirname(os.path.dirname(os.path.abspath(__file__)))
 props = [json.loads(l) for l in open(os.path.join(HERE, "properties.jsonl"))]
 
 CLAIMS = {
+ "C06": dict(
+  technique="custom static checker: predicate-abstraction skeleton of checkForCorruption and deallocMemory, exhaustive folding of matchingAllocation, abstract execution of the guard-byte writer followed by the reader for the intact pattern and for every single-position change, sibling rules over the tracked release wrappers (poison before release, same pointer) and over the wrapper-allocator class hierarchy",
+  text="Decides that each outcome of (family match, guard validity, record layout) maps to exactly the one report the property names in mismatch-first order, that every guard byte position is compared against the value the writer put there, that releasing NULL is silent, an unknown address gives one non-allocated report and no free, a known block is checked then freed once, that every delete/delete[]/free wrapper poisons the same pointer before releasing it, and that every wrapper allocator resolves to the wrapped allocator for the family comparison. Which bytes user code writes is not decided.",
+  note="Trusted: clang AST/CFG; allocator names identify families; C05 decides the layout that puts the guard bytes at memory + size."),
  "C11": dict(
   technique="custom static checker: exhaustive constant folding of the wait-status decoder (with glibc's W* macro expansions) over every exit status, signal, stop signal and the continued status; per-iteration path enumeration of the wait loop as a transition system over (waitpid result, errno, retry counter vs bound, status class); must-end-in-_exit rule for the child branch; routing rules in the runner",
   text="Decides, for every possible status word class and every outcome of fork/waitpid per iteration, that exactly one failure is recorded for exit!=0 / signal / stop and none for exit 0, that errors and EINTR past a constant bound report once and return while EINTR below it only retries, that the status is never decoded after a failed wait, that stopped children are continued and the loop ends only on exit or signal, that the child branch always ends in _exit with the failure-count delta, and that every test is routed through the separate-process runner under SetJmp when -p is on. Kernel behaviour per signal is not decided.",
